@@ -1,4 +1,7 @@
 """Building and driving REAL rxsci pipelines from the JSON pipeline terms of the line protocol."""
+import collections
+import json as _json
+import zlib
 import rx
 import rx.operators as rxops
 from rx.subject import Subject
@@ -80,8 +83,6 @@ class Builder(object):
 
     def pipe(self, term, path='', start=0):
         if path == '' and self.salt == 0:
-            import zlib
-            import json as _json
             self.salt = zlib.crc32(_json.dumps(term).encode()) % 7     # deterministic per pipeline: varies the seed-factory flavour
         ops = []
         idx = start
@@ -119,8 +120,6 @@ class Builder(object):
             if isinstance(seed, list) and st[5:] == ['factory']:
                 # a seed FACTORY: the class itself, a functools.partial, or an object with __call__ (all are callable(seed))
                 import functools
-                import zlib
-                import json as _json
 
                 class ListFactory(object):
                     def __call__(self):
@@ -153,7 +152,17 @@ class Builder(object):
         if n == 'pad_end':
             return [rs.data.pad_end(st[1], dec(st[2]))]
         if n == 'start_with':
-            return [rs.ops.start_with([dec(v) for v in st[1]])]
+            # the padding in each of the forms the operator iterates over: a list, a tuple, a deque, a re-iterable object
+            pad = [dec(v) for v in st[1]]
+
+            class Padding(object):
+                def __init__(self, l):
+                    self.l = l
+
+                def __iter__(self):
+                    return iter(list(self.l))
+            form = [list, tuple, collections.deque, Padding][(zlib.crc32(_json.dumps(st).encode()) + self.salt) % 4]
+            return [rs.ops.start_with(form(pad))]
         if n == 'batch':
             return [rs.data.batch(st[1])]
         if n == 'to_list':
